@@ -1,21 +1,29 @@
+import PromVerif.Drv.C01
 import PromVerif.Drv.C03
+import PromVerif.Drv.C05
 import PromVerif.Drv.C06
 import PromVerif.Drv.C10
 import PromVerif.Drv.C13
 import PromVerif.Drv.Core
 import PromVerif.Drv.Expo
 import PromVerif.Drv.C19
+import PromVerif.Drv.C17
+import PromVerif.Drv.C14
 namespace PromVerif.Drv
 
 def dispatch (m : String) (args : List String) : String :=
   match m with
+  | "c01" => C01.handle args
   | "c03" => C03.handle args
+  | "c05" => C05.handle args
   | "c06" => C06.handle args
   | "c10" => C10.handle args
   | "c13" => C13.handle args
   | "core" => Core.handle args
   | "expo" => Expo.handle args
   | "c19" => C19.handle args
+  | "c17" => C17.handle args
+  | "om" => C14.handle args
   | _ => "err unknown-module"
 
 end PromVerif.Drv
